@@ -377,7 +377,9 @@ fn random_history(rng: &mut Rng, max_len: usize, builders_first: bool, allow_sub
     if builders_first {
         // every order of the builder calls
         let mut b = vec![
-            Op::WithFilter(Some(*rng.pick(&[1u32, 3, 5, 15]))),
+            // (also filters that keep whitespace, and no filter: the eagerly buffered first token
+            // may then be a tab or a line break, measured before the metrics builders run)
+            Op::WithFilter(if rng.chance(1, 6) { None } else { Some(*rng.pick(&[1u32, 3, 5, 15, 2, 4, 8, 6])) }),
             Op::WithLineEnding(*rng.pick(LINE_ENDINGS)),
             Op::WithTabWidth(1 + rng.below(8) as u8),
             Op::WithMetrics(*rng.pick(LINE_ENDINGS), 1 + rng.below(8) as u8),
@@ -470,6 +472,10 @@ pub fn lexops(out: &mut Out, tier: &Tier, rng: &mut Rng) {
         let le = *rng.pick(LINE_ENDINGS);
         let tab = 1 + rng.below(8) as u8;
         let h = random_history(rng, 9, i % 3 == 0, i % 2 == 0);
+        // builder-order histories: half of the texts begin with metrics-sensitive characters
+        let text = if i % 3 == 0 && rng.chance(1, 2) {
+            format!("{}{}", rng.pick(&["\t", "\r", "\n", "\r\n", "\t\t", "\r\r"]), text)
+        } else { text };
         lexops_case(out, &text, le, tab, 1 + 2 * rng.below(4), &h);
     }
 }
